@@ -1,5 +1,5 @@
 import FluteModel.Lemmas.DrainObj
-import FluteModel.Drv.Orecv
+import FluteModel.ObjRecvIdeal
 import FluteModel.Lemmas.ObjRecvTotal
 /-
   The decompressor contract `DzContract` (Lemmas/DrainObj.lean) is SATISFIABLE by decompressors that do hand out data
